@@ -94,6 +94,9 @@ func (st *State) concretize(t *Term) status {
 		st.endReason = endAssumeFalse
 		return stEnd
 	}
+	for k := range st.altModels {
+		delete(st.altModels, k)
+	}
 	alts := make([]Alt, 0, len(vals))
 	id := t.id
 	for _, v := range vals {
@@ -1176,6 +1179,9 @@ func (st *State) makeSlice(et types.Type, n, c int) Slice {
 	o := &Obj{id: st.nextObj, name: "slice"}
 	st.nextObj++
 	o.slots = make([]Value, c*l.n)
+	if c*l.n > bigObj {
+		o.dirty = map[int]struct{}{}
+	}
 	if l.n == 1 {
 		z := l.zeros[0]
 		for i := range o.slots {
